@@ -46,6 +46,7 @@ impl Stats {
         self.violation_count += 1;
         // keep the first few per fingerprint; count all
         if self.violations.len() < 200 && !self.violations.iter().any(|v| v.fingerprint == fingerprint) {
+            journal(&fingerprint, &key, &detail);
             self.violations.push(Violation { fingerprint, key, detail });
         }
     }
@@ -77,6 +78,39 @@ impl Stats {
             }
         }
     }
+}
+
+static JOURNAL: Mutex<Option<std::fs::File>> = Mutex::new(None);
+
+/// Sweeps that run in a child process journal every new violation at once, so that what was found
+/// is not lost if the process later dies (abort, stack overflow) in the library under test.
+pub fn set_journal(path: &str) {
+    *JOURNAL.lock().unwrap() = std::fs::File::create(path).ok();
+}
+
+fn journal(fingerprint: &str, key: &str, detail: &Value) {
+    use std::io::Write;
+    if let Ok(mut g) = JOURNAL.lock() {
+        if let Some(f) = g.as_mut() {
+            let _ = writeln!(f, "{}", json!({"fingerprint": fingerprint, "key": key, "detail": detail}));
+            let _ = f.flush();
+        }
+    }
+}
+
+pub fn read_journal(path: &str) -> Vec<Violation> {
+    let mut out: Vec<Violation> = Vec::new();
+    if let Ok(s) = std::fs::read_to_string(path) {
+        for l in s.lines() {
+            if let Ok(v) = serde_json::from_str::<Value>(l) {
+                let fp = v["fingerprint"].as_str().unwrap_or("").to_string();
+                if !out.iter().any(|x| x.fingerprint == fp) {
+                    out.push(Violation { fingerprint: fp, key: v["key"].as_str().unwrap_or("").to_string(), detail: v["detail"].clone() });
+                }
+            }
+        }
+    }
+    out
 }
 
 static CURRENT: Mutex<(String, bool)> = Mutex::new((String::new(), false));
